@@ -4,6 +4,7 @@ import (
 	"fmt"
 	"go/token"
 	"go/types"
+	"os"
 	"path/filepath"
 	"strings"
 
@@ -38,7 +39,40 @@ func assetTreeShape(c *Ctx, p *core.Prog) (bool, string) {
 			return false, fmt.Sprintf("embedded file %s does not end in txt: DefaultClassifier loads it but LoadLicenses on the same directory skips it", rel)
 		}
 	}
-	return true, fmt.Sprintf("all %d embedded files (patterns %v) have exactly 3 components and end in txt", len(pk.EmbedFiles), pk.EmbedPatterns)
+	// ... and the other way round: every file of the assets directory that LoadLicenses would load (depth 3, ends in txt) is
+	// embedded - a pattern that leaves a category out makes DefaultClassifier poorer than LoadLicenses on the same directory
+	embedded := map[string]bool{}
+	for _, f := range pk.EmbedFiles {
+		embedded[filepath.Clean(f)] = true
+	}
+	missing, nDisk := "", 0
+	cats, _ := os.ReadDir(dir)
+	for _, cat := range cats {
+		if !cat.IsDir() {
+			continue
+		}
+		names, _ := os.ReadDir(filepath.Join(dir, cat.Name()))
+		for _, nm := range names {
+			if !nm.IsDir() {
+				continue
+			}
+			files, _ := os.ReadDir(filepath.Join(dir, cat.Name(), nm.Name()))
+			for _, f := range files {
+				if f.IsDir() || !strings.HasSuffix(f.Name(), "txt") {
+					continue
+				}
+				nDisk++
+				full := filepath.Join(dir, cat.Name(), nm.Name(), f.Name())
+				if !embedded[filepath.Clean(full)] && missing == "" {
+					missing = filepath.Join(cat.Name(), nm.Name(), f.Name())
+				}
+			}
+		}
+	}
+	if missing != "" {
+		return false, fmt.Sprintf("the file %s of the assets directory is not embedded (patterns %v): LoadLicenses on the directory loads it, DefaultClassifier does not", missing, pk.EmbedPatterns)
+	}
+	return true, fmt.Sprintf("all %d embedded files (patterns %v) have exactly 3 components and end in txt; all %d such files of the directory are embedded", len(pk.EmbedFiles), pk.EmbedPatterns, nDisk)
 }
 
 func init() {
@@ -204,6 +238,68 @@ func runC12(c *Ctx) {
 			"the classifier is handed to "+badCls+" before the number of path segments is tested: a file that is then left out has already put its words into the classifier's dictionary (or more), so inputs are tokenized differently than with a classifier built by AddContent per file")
 	}
 
+	// R12.16: LoadLicenses never panics, also for a classifier whose trace configuration is nil (SetTraceConfiguration(nil)): the
+	// methods of TraceConfiguration agree on testing their receiver - where most of them start with `tc == nil`, every method
+	// that LoadLicenses can reach and that reads a field of its receiver does so behind that test.
+	{
+		var tcMethods []*ssa.Function
+		for _, fn := range v2Funcs(p) {
+			if isTraceFn(fn) && fn.Signature.Recv() != nil && len(fn.Params) > 0 {
+				if _, isPtr := fn.Params[0].Type().Underlying().(*types.Pointer); isPtr {
+					tcMethods = append(tcMethods, fn)
+				}
+			}
+		}
+		guarded := func(fn *ssa.Function) (derefs int, unguarded string) {
+			recv := fn.Params[0]
+			for _, b := range fn.Blocks {
+				for _, in := range b.Instrs {
+					fa, ok := in.(*ssa.FieldAddr)
+					if !ok || core.Unspill(fa.X) != ssa.Value(recv) {
+						continue
+					}
+					derefs++
+					okG := false
+					for _, f := range core.FactsAt(b) {
+						if cmp, isCmp := f.AsCmp(); isCmp && cmp.Op == token.NEQ {
+							if k, isK := cmp.Y.(*ssa.Const); isK && k.IsNil() && core.Unspill(cmp.X) == ssa.Value(recv) {
+								okG = true
+							}
+						}
+					}
+					if !okG && unguarded == "" {
+						unguarded = p.Pos(fa.Pos())
+					}
+				}
+			}
+			return
+		}
+		nGuard := 0
+		for _, m := range tcMethods {
+			if d, u := guarded(m); d > 0 && u == "" {
+				nGuard++
+			}
+		}
+		if nGuard >= 2 {
+			bad := ""
+			reach := map[*ssa.Function]bool{}
+			for _, f := range fns {
+				for _, g := range pkgClosure(f, v2pkg) {
+					reach[g] = true
+				}
+			}
+			for _, m := range tcMethods {
+				if !reach[m] {
+					continue
+				}
+				if d, u := guarded(m); d > 0 && u != "" && bad == "" {
+					bad = core.ShortFn(m) + " reads a field of its receiver at " + u
+				}
+			}
+			c.R.Check(bad == "", "R12.16", "LoadLicenses: the trace methods it reaches test their receiver against nil like their siblings", p.Pos(ll.Pos()), fmt.Sprintf("%d methods of TraceConfiguration guard their receiver", nGuard),
+				bad+" without the nil test the other methods start with: a classifier whose trace configuration is nil panics in LoadLicenses for a tree with a file that lies too shallow")
+		}
+	}
 	// R12.11: what is opened for one file of the corpus is released before the next file is looked at: no deferred call is
 	// queued inside a loop (a deferred Close runs when LoadLicenses returns - a corpus with more files than the process may
 	// have open descriptors then fails half way, unlike one AddContent per file)
